@@ -510,7 +510,7 @@ def run(ctx: core.Check, cases=None):
                 "list / ndarray / int ndarray / column vector); random interval samples (zero, constant, small, mixed, wide widths) "
                 "each with lo/hi/mid + 3 random selections (uniform, endpoint mix, piled ties); 21 fixed + random unsupported levels "
                 "(neighbours of the table keys, confidence-level confusions, 0, 1, negative, nan, inf); empty sample; synthetic bundles "
-                "through Staircase.from_CDFbundle. Non-trivial: sample not constant (or interval/unsupported/bundle case); "
+                "through Staircase.from_CDFbundle (crossing pairs must raise, as the Pbox constructor does since 1ca78ea). Non-trivial: sample not constant (or interval/unsupported/bundle case); "
                 "distinctness on the full case description.")
     ctx.assumptions = [
         "binary64 rounding is not modelled: band probabilities agree within (n+8)*2ulp(1) absolutely, d_alpha within 16 ulp(1); "
@@ -552,6 +552,7 @@ def run(ctx: core.Check, cases=None):
         if kind == "bundles":
             ctx.count(("b", c["a"], c["b"]), True, stream)
             model = parse_lists(rep["frombundles"], 2)
+            ctx.bump("bundles:" + ("raises:" + impl[1] if impl[0] == "err" else "pbox"))   # crossing bounds raise (1ca78ea)
             if same_lists_exact(impl, model):
                 ctx.tie_ok()
             else:
